@@ -67,7 +67,8 @@ class FixedDecode(Unit):
 
     properties = ("C04",)
 
-    def __init__(self, name, parser, fmt, kwargs=None, fixed=None, combine=None, drop=(), pad_to=None):
+    def __init__(self, name, parser, fmt, kwargs=None, fixed=None, combine=None, drop=(), pad_to=None, short=()):
+        self.short = tuple(short)  # [(size, {length field: value})]: well-formed responses shorter than the full format
         self.name = "decode/" + name
         self.parser = parser  # () -> callable
         self.fmt = fmt
@@ -82,24 +83,35 @@ class FixedDecode(Unit):
         return [getattr(f, "__func__", f)]
 
     def cases(self, tier):
-        return [{"tail": t} for t in ("none", "unused-buffer-space")]
+        return [{"tail": t} for t in ("none", "unused-buffer-space")] + [{"tail": "none", "short": i} for i in range(len(self.short))]
+
+    def case_id(self, case):
+        return "tail=%s%s" % (case["tail"], ",short-response-of-%d-bytes" % self.short[case["short"]][0] if "short" in case else "")
 
     def interp_config(self, case):
         from .converter import l0_contracts
 
         return {"contracts": l0_contracts()}
 
+    def _fixed(self, case):
+        return dict(self.fixed, **self.short[case["short"]][1]) if "short" in case else self.fixed
+
     def inputs(self, case):
-        d = field_inputs(self.fmt, fixed=self.fixed)
+        d = field_inputs(self.fmt, fixed=self._fixed(case))
         if case["tail"] != "none":
             d["tail"] = Bytes(5, mutable=False)
         return d
 
     def run(self, X, case, a):
-        vals = field_values(self.fmt, a, fixed=self.fixed)
+        vals = field_values(self.fmt, a, fixed=self._fixed(case))
         cells = self.fmt.encode(vals, size=self.pad_to)
         if case["tail"] != "none":
             cells = cells + list(a.tail)
+        self.size = None
+        if "short" in case:
+            # the device returns only the first `size` bytes (its length field says so) into a buffer of that size
+            self.size = self.short[case["short"]][0]
+            cells = cells[:self.size]
         self.vals = vals
         return X.call(self.parser(), mkbuf(X, cells), **self.kwargs)
 
@@ -119,6 +131,8 @@ class FixedDecode(Unit):
         for k in self.fmt.fields:
             if k in combined or k in self.drop:
                 continue
+            if getattr(self, "size", None) is not None and self.fmt.fields[k].end > self.size:
+                continue  # the field lies beyond the end of the short response: no value was sent for it
             yield "C04", "value:%s (%s)" % (k, self.fmt.fields[k].describe()), same(lookup(res, k), vals[k])
 
     def canaries(self, case, a, out, X):
@@ -132,7 +146,8 @@ class FixedDecode(Unit):
 def build_fixed_units():
     us = []
     inq = lambda: cls_of("scsi_cdb_inquiry", "Inquiry").unmarshall_datain
-    us.append(FixedDecode("Inquiry:standard", inq, D.STANDARD_INQUIRY, kwargs={"evpd": 0}))
+    # the minimal standard INQUIRY data is 36 bytes (ADDITIONAL LENGTH 31); 58 bytes up to the version descriptors' start
+    us.append(FixedDecode("Inquiry:standard", inq, D.STANDARD_INQUIRY, kwargs={"evpd": 0}, short=[(36, {"additional_length": 31}), (58, {"additional_length": 53}), (5, {"additional_length": 0})]))
     for fmt in D.FIXED_VPD_PAGES:
         us.append(FixedDecode("Inquiry:vpd-%02X" % fmt.page_code, inq, fmt, kwargs={"evpd": 1}, fixed={"page_code": fmt.page_code}))
     us.append(FixedDecode("ReadCapacity10", lambda: cls_of("scsi_cdb_readcapacity10", "ReadCapacity10").unmarshall_datain, D.READ_CAPACITY_10))
